@@ -166,3 +166,58 @@ def paths_avoiding(body, start, targets, avoid):
             if not body.blocks[s]['cleanup']:
                 work.append(s)
     return False
+
+
+def walk_known(body, starts, stop=None, cut_edges=(), skip_blocks=()):
+    """Forward walk that remembers, per path, which variant an enum-typed local was last *built as* (an aggregate with a variant, handed on by moves,
+    its discriminant read, `?` applied) and follows only the matching edge of a switch on such a discriminant.  A failure re-encoded as an enum
+    variant (`return Outcome::ReadFailed` in an expanded helper, matched on by the caller) is thus followed along its own arm only.
+    stop(bb) -> True ends the path at bb (bb is still reported); cut_edges: (from, to) pairs not followed; skip_blocks: blocks not entered.
+    Returns the set of blocks visited."""
+    import re
+    from mirfacts import callee_path
+    seen, visited = set(), set()
+    work = [(s_, ()) for s_ in starts]
+    while work:
+        x, st8 = work.pop()
+        if (x, st8) in visited or x in skip_blocks:
+            continue
+        visited.add((x, st8))
+        seen.add(x)
+        if stop is not None and stop(x):
+            continue
+        known = dict(st8)
+        for stm in body.blocks[x]['stmts']:
+            if stm['s'] != 'assign' or stm['p']['proj']:
+                continue
+            rv, dl = stm['rv'], stm['p']['l']
+            if rv['r'] == 'agg' and rv.get('ak') == 'adt' and rv.get('variant') is not None:
+                known[dl] = ('v', rv['variant'], rv.get('path', ''))
+            elif rv['r'] == 'use' and rv['op'].get('o') in ('move', 'copy') and not rv['op']['p']['proj'] and rv['op']['p']['l'] in known:
+                known[dl] = known[rv['op']['p']['l']]
+            elif rv['r'] == 'discr' and not rv['p']['proj'] and rv['p']['l'] in known and known[rv['p']['l']][0] == 'v':
+                known[dl] = ('d', known[rv['p']['l']][1])
+            else:
+                known.pop(dl, None)
+        tt = body.blocks[x]['term']
+        if tt['t'] == 'call' and not tt['dest']['proj']:
+            a0 = tt['args'][0] if tt['args'] else None
+            kv = known.get(a0['p']['l']) if a0 and a0.get('o') in ('move', 'copy') and not a0['p']['proj'] else None
+            if kv and kv[0] == 'v' and re.search(r'Try>?::branch$', callee_path(tt) or ''):
+                # Result: Ok(0) -> Continue(0), Err(1) -> Break(1); Option: Some(1) -> Continue(0), None(0) -> Break(1)
+                idx = kv[1] if 'Result' in kv[2] else (0 if kv[1] == 1 else 1)
+                known[tt['dest']['l']] = ('v', idx, 'ControlFlow')
+            else:
+                known.pop(tt['dest']['l'], None)
+        succs = [s_ for s_ in body.succs(x)]
+        if tt['t'] == 'switch' and tt['discr'].get('o') in ('move', 'copy') and not tt['discr']['p']['proj']:
+            kv = known.get(tt['discr']['p']['l'])
+            if kv and kv[0] == 'd':
+                hit = [tg for val, tg in tt['targets'] if val == kv[1]]
+                succs = hit if hit else [tt['otherwise']]
+        nst = tuple(sorted(known.items()))
+        for s_ in succs:
+            if body.blocks[s_]['cleanup'] or (x, s_) in cut_edges:
+                continue
+            work.append((s_, nst))
+    return seen
